@@ -100,8 +100,8 @@ def inventory(tree):
             tuple_assigns[q] = ts
     from . import subset
     from .exprnorm import store_counts
-    from .lints import none_tested_params
-    return {"none_tested": none_tested_params(tree), "reflection": _reflection_count(tree), "tuple_assigns": tuple_assigns, "census": subset.census(tree),
+    from .lints import none_tested_params, unthreaded_call_counts
+    return {"none_tested": none_tested_params(tree), "unthreaded_calls": unthreaded_call_counts(tree), "reflection": _reflection_count(tree), "tuple_assigns": tuple_assigns, "census": subset.census(tree),
             "store_counts": {q: store_counts(fn) for q, fn in _iter_funcs(tree)},
             "functions": sorted(set(funcs)), "globals": sorted(set(globs)), "literal_loops": loops, "private_params": params,
             "call_positional": call_pos, "call_keywords": {k: sorted(v) for k, v in call_kw.items()}, "literal_comps": comps, "dict_comps": dict_comps}
